@@ -135,6 +135,23 @@ def gen_tree(rng, leaves, depth):
     return "compose[" + ",".join(k[0] for k in kids) + "]", T.KDComposeTransform([k[1] for k in kids])
 
 
+def _subnodes(t):
+    """all transforms strictly below `t` (members of compositions, wrapped transforms), outermost first"""
+    out = []
+    kids = []
+    for attr in ("transforms",):
+        v = getattr(t, attr, None)
+        if isinstance(v, (list, tuple)):
+            kids += list(v)
+    v = getattr(t, "transform", None)
+    if v is not None and hasattr(v, "scale_strength"):
+        kids.append(v)
+    for k in kids:
+        out.append(k)
+        out += _subnodes(k)
+    return out
+
+
 def strip_og_cur(m):
     """(og-part, current-part) views of a model tree for the oracle"""
     return m
@@ -328,6 +345,21 @@ class C15(PropertyCheck):
             if current_state(to_model(d)) != s2:
                 return Failure(f"strength:{label.split('[')[0]}:compounding", f"{label}: scale({f1}) then scale({f2}) differs from scale({f2}) alone (compounding)",
                                inp, s2, current_state(to_model(d)))
+            # history over several objects: the whole tree is scaled to f1, then parts of it are given another factor directly,
+            # then the whole tree is scaled to f1 again -- the last factor given to the tree counts for every member
+            e = copy.deepcopy(t0); e.scale_strength(f1)
+            parts = _subnodes(e)
+            if parts:
+                for sub in parts[::2] or parts:
+                    if getattr(sub, "supports_scale_strength", True) and hasattr(sub, "scale_strength"):
+                        try:
+                            sub.scale_strength(f2)
+                        except (AssertionError, NotImplementedError):
+                            pass
+                e.scale_strength(f1)
+                if current_state(to_model(e)) != s1:
+                    return Failure(f"strength:{label.split('[')[0]}:history", f"{label}: tree scaled to {f1}, some members scaled to {f2} directly, tree scaled to "
+                                   f"{f1} again: the members do not follow the last factor given to the tree", inp, s1, current_state(to_model(e)))
         except AssertionError as e:
             return Failure(f"strength:{label.split('[')[0]}:assert", f"{label}: scale_strength raises AssertionError for a valid factor", inp, "no assertion", str(e))
         return None
